@@ -286,6 +286,7 @@ fn parse_zc(frame: &Frame) -> Parsed {
 }
 
 const PCALL: &str = "return redis.pcall(table.unpack(ARGV))";
+const CALL: &str = "return redis.call(table.unpack(ARGV))";
 
 fn eval(ex: &mut CommandExecutor, script: &str, argv: &Frame) -> Result<RespValue, ()> {
     let cmd = Command::Eval {
@@ -303,27 +304,36 @@ const T0_MS: u64 = 1_000_000;
 /// past every primed deadline
 const LATER_MS: [u64; 3] = [T0_MS + 8_000, T0_MS + 60_000, T0_MS + 2_000_000];
 
+/// a non-UTF-8 element present in every primed container (and the first byte variant of the sweeps)
+const BIN: &[u8] = b"\xff\x00\xfe";
 /// the primed keyspace, described for replay files
-const PRIMED: &str = "t=1000000ms; TTL-carrying: s='10'(100s) l=[a,b,c](200s) st={a,b}(50s) h={f:1,g:x}(300s) z={a:1,b:2,c:3}(400s) n='7'(5s); without TTL: t='text' l2=[x,y] st2={a,c} h2={f:5} z2={a:1,m:9} c='41'";
+const PRIMED: &str = "t=1000000ms; TTL-carrying: s='10'(100s) l=[a,b,c,BIN](200s) st={a,b,BIN}(50s) h={f:1,g:x,BIN:BIN}(300s) z={a:1,b:2,c:3,BIN:4}(400s) n='7'(5s), BIN = ff 00 fe; without TTL: t='text' l2=[x,y] st2={a,c} h2={f:5} z2={a:1,m:9} c='41'; x='gone' whose deadline (t-4s) has passed but which was never evicted";
 
 /// a keyspace with keys of every type, with and without a TTL, at a non-zero virtual time
 /// (both twins start from it)
 fn primed() -> CommandExecutor {
     let mut e = CommandExecutor::new();
-    e.set_time(VirtualTime::from_millis(T0_MS));
     let sd = |s: &str| SDS::from_str(s);
+    // `x`: its deadline has passed at T0 but it was never evicted (the clock moved without the eviction pass)
+    e.set_time(VirtualTime::from_millis(T0_MS - 5_000));
+    e.execute(&Command::set("x".into(), sd("gone")));
+    e.execute(&Command::expire("x".into(), 1));
+    e.update_time_readonly(VirtualTime::from_millis(T0_MS));
     let zadd = |k: &str, ps: Vec<(f64, SDS)>| Command::ZAdd { key: k.into(), pairs: ps, nx: false, xx: false, gt: false, lt: false, ch: false };
     e.execute(&Command::set("s".into(), sd("10")));
     e.execute(&Command::set("t".into(), sd("text")));
     e.execute(&Command::set("n".into(), sd("7")));
     e.execute(&Command::set("c".into(), sd("41")));
-    e.execute(&Command::RPush("l".into(), vec![sd("a"), sd("b"), sd("c")]));
+    // every container also holds the binary element BIN, so that removals / lookups with a binary
+    // argument hit an existing entry (a lossy conversion in one path then changes the effect)
+    let bin = || SDS::new(BIN.to_vec());
+    e.execute(&Command::RPush("l".into(), vec![sd("a"), sd("b"), sd("c"), bin()]));
     e.execute(&Command::RPush("l2".into(), vec![sd("x"), sd("y")]));
-    e.execute(&Command::SAdd("st".into(), vec![sd("a"), sd("b")]));
+    e.execute(&Command::SAdd("st".into(), vec![sd("a"), sd("b"), bin()]));
     e.execute(&Command::SAdd("st2".into(), vec![sd("a"), sd("c")]));
-    e.execute(&Command::HSet("h".into(), vec![(sd("f"), sd("1")), (sd("g"), sd("x"))]));
+    e.execute(&Command::HSet("h".into(), vec![(sd("f"), sd("1")), (sd("g"), sd("x")), (bin(), bin())]));
     e.execute(&Command::HSet("h2".into(), vec![(sd("f"), sd("5"))]));
-    e.execute(&zadd("z", vec![(1.0, sd("a")), (2.0, sd("b")), (3.0, sd("c"))]));
+    e.execute(&zadd("z", vec![(1.0, sd("a")), (2.0, sd("b")), (3.0, sd("c")), (4.0, bin())]));
     e.execute(&zadd("z2", vec![(1.0, sd("a")), (9.0, sd("m"))]));
     for (k, secs) in [("s", 100), ("l", 200), ("st", 50), ("h", 300), ("z", 400), ("n", 5)] {
         e.execute(&Command::expire(k.into(), secs));
@@ -471,7 +481,7 @@ const SHAPES: &[Shape] = &[
     Shape { name: "COMMAND", tmpl: "", kws: &["COUNT", "DOCS"] },
     Shape { name: "CLIENT", tmpl: "", kws: &["SETNAME", "GETNAME", "ID", "INFO", "LIST"] },
     Shape { name: "OBJECT", tmpl: "", kws: &["HELP", "ENCODING", "REFCOUNT", "IDLETIME", "FREQ"] },
-    Shape { name: "DEBUG", tmpl: "", kws: &["SLEEP", "OBJECT", "JMAP", "RELOAD", "SET-ACTIVE-EXPIRE"] },
+    Shape { name: "DEBUG", tmpl: "", kws: &["SLEEP", "OBJECT", "JMAP", "RELOAD", "SET-ACTIVE-EXPIRE", "LOADAOF", "QUICKLIST-PACKED-THRESHOLD"] },
     Shape { name: "GETRANGE", tmpl: "KII", kws: NOKW }, Shape { name: "SUBSTR", tmpl: "KII", kws: NOKW },
     Shape { name: "SETRANGE", tmpl: "KIV", kws: NOKW }, Shape { name: "SETBIT", tmpl: "KUI", kws: NOKW },
     Shape { name: "GETBIT", tmpl: "KU", kws: NOKW },
@@ -498,7 +508,7 @@ const NUMS: &[&str] = &[
     "2.2250738585072014e-308", "2.2250738585072011e-308", "１", "1\u{0}",
 ];
 
-const KEYS: &[&[u8]] = &[b"s", b"t", b"l", b"st", b"h", b"z", b"missing", b"k", b"n", b"c", b"l2", b"st2", b"h2", b"z2", b"", b"\xff\xfe", b"\xc3\x28", b"\xe2\x82\xac", b"key with space", b"\xf0\x9f\x98\x80", b"\xed\xa0\x80", b"\xe2\x82"];
+const KEYS: &[&[u8]] = &[b"s", b"t", b"l", b"st", b"h", b"z", b"missing", b"k", b"n", b"c", b"l2", b"st2", b"h2", b"z2", b"x", b"", b"\xff\xfe", b"\xc3\x28", b"\xe2\x82\xac", b"key with space", b"\xf0\x9f\x98\x80", b"\xed\xa0\x80", b"\xe2\x82"];
 const VALS: &[&[u8]] = &[b"v", b"10", b"a", b"b", b"f", b"g", b"", b"\x00\xff\r\n", b"nx", b"NX", b"EX", b"\xe6\x97\xa5\xe6\x9c\xac", b"\xc5\xbf", b"\xef\xac\x81", b"*", b"a*", b"(1", b"-inf", b"+inf"];
 
 fn pick_bytes(rng: &mut Rng, pool: &[&[u8]]) -> Vec<u8> {
@@ -516,7 +526,7 @@ fn slot(rng: &mut Rng, c: char) -> Vec<u8> {
     }
     match c {
         'K' => {
-            if rng.chance(4, 5) { pick_bytes(rng, &KEYS[..14]) } else { pick_bytes(rng, KEYS) }
+            if rng.chance(4, 5) { pick_bytes(rng, &KEYS[..15]) } else { pick_bytes(rng, KEYS) }
         }
         'V' | 'M' | 'S' => pick_bytes(rng, VALS),
         'I' | 'U' | 'F' => {
@@ -730,6 +740,12 @@ fn sig_name(f: &Frame) -> String {
 
 pub struct Ctx {
     pub out: Out,
+    /// emit the P / Z / LP / RT correspondence ops (off for inputs outside the model's alphabet:
+    /// cased non-ASCII letters — there the three real paths are still compared with each other)
+    with_model: bool,
+    /// also run the frame through `redis.call` (the raising variant) on a third twin
+    call_path: bool,
+    call_error_samples: Vec<serde_json::Value>,
     lua_unknown: BTreeSet<String>,
     lua_errtext: BTreeSet<String>,
     parse_crash: BTreeSet<String>,
@@ -758,8 +774,12 @@ impl Ctx {
         let name = sig_name(f);
         let a = parse_sim(f);
         let b = parse_zc(f);
-        self.out.op(format!("P {}", text), a.line());
-        self.out.op(format!("Z {}", text), b.line());
+        if self.with_model {
+            self.out.op(format!("P {}", text), a.line());
+            self.out.op(format!("Z {}", text), b.line());
+        } else {
+            self.out.count("oracle-only-frame");
+        }
         self.out.count(&format!("src:{}", src));
         self.out.count(&format!("arity:{}", f.len().saturating_sub(1).min(9)));
         match &a {
@@ -832,9 +852,13 @@ impl Ctx {
             LuaOutcome::Rejected(t) => format!("ERR {}", hex(t.as_bytes())),
             LuaOutcome::Crash => "crash".into(),
         };
-        self.out.op(format!("LP {}", text), lua_line.clone());
+        if self.with_model {
+            self.out.op(format!("LP {}", text), lua_line.clone());
+        }
         self.out.count(&format!("lua:{}", match &lua { LuaOutcome::Accepted(_) => "accepted", LuaOutcome::Rejected(t) if translator_error_shape(t) => "unknown-command", LuaOutcome::Rejected(_) => "rejected", LuaOutcome::Crash => "crash" }));
 
+        // the keyspace of the pcall twin now and later (taken once: taking it moves the twin's clock)
+        let mut lua_dumps: Option<Vec<String>> = None;
         // ---- oracle 2: Lua path vs direct path
         let mut nontrivial = !matches!(&a, Parsed::Ok(c, _) if matches!(c, Command::Unknown(_)));
         let key = kw_name(f);
@@ -914,9 +938,12 @@ impl Ctx {
                 // effect equality on the twins
                 if let Some((_, rd)) = &direct {
                     let rl = normalise_reply(c, rl.clone());
-                    self.out.op(format!("RT {}", show_resp(rd)), show_resp(&rl));
+                    if self.with_model {
+                        self.out.op(format!("RT {}", show_resp(rd)), show_resp(&rl));
+                    }
                     let same_reply = show_resp(rd) == show_resp(&rl) || (matches!(rd, RespValue::Array(None)) && matches!(rl, RespValue::BulkString(None)));
-                    let (da, dl) = (dumps(&mut ex_direct), dumps(&mut ex_lua));
+                    let da = dumps(&mut ex_direct);
+                    let dl = lua_dumps.get_or_insert_with(|| dumps(&mut ex_lua)).clone();
                     if !same_reply {
                         let class = if contains_nil(rd) && show_resp(&model_conv(rd)) == show_resp(&rl) { "C16:lua:array-with-nil-truncated".to_string() } else { format!("C16:lua:reply-differs:{}", name) };
                         self.out.violation(&class, "the reply of a command run through redis.pcall differs from the reply of the same command sent directly (after the documented conversion)",
@@ -931,6 +958,55 @@ impl Ctx {
                 }
             }
             (Parsed::Crash, _) | (_, LuaOutcome::Crash) => {}
+        }
+        // ---- oracle 3: redis.call (raising) against redis.pcall: same effect, same reply, and an error
+        // reply surfaces as an error that still carries the command's error text
+        if self.call_path {
+            let mut ex_call = primed();
+            let rc = eval(&mut ex_call, CALL, f);
+            let dc = dumps(&mut ex_call);
+            let dl = lua_dumps.get_or_insert_with(|| dumps(&mut ex_lua)).clone();
+            self.out.count("call-path-compared");
+            if dc != dl {
+                self.out.violation(&format!("C16:lua:call-vs-pcall:effect-differs:{}", name), "the keyspace after redis.call differs from the keyspace after redis.pcall of the same command",
+                    replay("call-effect", json!({"primed_state": PRIMED, "call_dumps": dc, "pcall_dumps": dl})));
+            }
+            let pcall_err: Option<String> = match &lua {
+                LuaOutcome::Accepted(RespValue::Error(t)) => Some(t.to_string()),
+                LuaOutcome::Rejected(t) => Some(t.clone()),
+                _ => None,
+            };
+            match (&rc, &lua, pcall_err) {
+                (Err(()), _, _) => self.out.violation(&format!("C16:lua:call-panics:{}", name), "EVAL with redis.call panics", replay("call-panic", json!({}))),
+                (_, LuaOutcome::Crash, _) => {}
+                (Ok(rcv), _, Some(t)) => {
+                    // expected: the error text itself (or "ERR <text>" when it has no error-code word), as the client path
+                    let mangled_prefix = format!("ERR runtime error: {}\nstack traceback:", t);
+                    match rcv {
+                        RespValue::Error(ct) if ct.as_ref() == t.as_str() || ct.as_ref() == format!("ERR {}", t) => {
+                            self.out.count("call-error-shape:verbatim");
+                        }
+                        RespValue::Error(ct) if ct.starts_with(&mangled_prefix) => {
+                            // the recorded finding: exactly mlua's "runtime error: <text>\nstack traceback: …" wrapping
+                            if self.call_error_samples.len() < 3 {
+                                self.call_error_samples.push(json!({"frame": f.iter().map(|x| String::from_utf8_lossy(x).to_string()).collect::<Vec<_>>(), "pcall_error": t, "call_reply": ct.to_string()}));
+                            }
+                            self.out.violation("C16:lua:call-error-text-mangled", "an error raised by redis.call reaches the client as 'ERR runtime error: <text>' plus a stack traceback with raw newlines and a source path, not as the command's error reply",
+                                replay("call-error-mangled", json!({"pcall_error": t, "call_reply": ct.to_string()})));
+                        }
+                        other => self.out.violation(&format!("C16:lua:call-vs-pcall:error-shape:{}", name), "redis.pcall answers an error table; redis.call of the same command must make EVAL answer that error",
+                            replay("call-error-shape", json!({"pcall_error": t, "call_reply": show_resp(other)}))),
+                    }
+                }
+                (Ok(rcv), LuaOutcome::Accepted(rl), None) => {
+                    let (x, y) = match &a { Parsed::Ok(c, _) => (normalise_reply(c, rcv.clone()), normalise_reply(c, rl.clone())), _ => (rcv.clone(), rl.clone()) };
+                    if show_resp(&x) != show_resp(&y) {
+                        self.out.violation(&format!("C16:lua:call-vs-pcall:reply-differs:{}", name), "redis.call and redis.pcall answer different replies for a command that succeeds",
+                            replay("call-reply", json!({"call_reply": show_resp(&x), "pcall_reply": show_resp(&y)})));
+                    }
+                }
+                (Ok(_), LuaOutcome::Rejected(_), None) => {}
+            }
         }
         self.out.case(&text, nontrivial);
         if self.out.samples.len() < 5 && nontrivial && src != "corpus" {
@@ -1021,6 +1097,8 @@ enum LuaV {
     OkT(Vec<u8>),
     ErrT(Vec<u8>),
     Arr(Vec<LuaV>),
+    /// a function value: neither nil nor convertible
+    Other,
 }
 
 fn lua_str_lit(b: &[u8]) -> String {
@@ -1043,6 +1121,7 @@ impl LuaV {
             LuaV::OkT(b) => format!("{{ok={}}}", lua_str_lit(b)),
             LuaV::ErrT(b) => format!("{{err={}}}", lua_str_lit(b)),
             LuaV::Arr(xs) => format!("{{{}}}", xs.iter().map(|x| x.literal()).collect::<Vec<_>>().join(",")),
+            LuaV::Other => "(function() end)".into(),
         }
     }
     fn show(&self) -> String {
@@ -1059,13 +1138,15 @@ impl LuaV {
                 v.extend(xs.iter().map(|x| x.show()));
                 v.join(" ")
             }
+            LuaV::Other => "other".into(),
         }
     }
 }
 
 fn rand_lua(rng: &mut Rng, depth: u32) -> LuaV {
     let strs: [&[u8]; 6] = [b"OK", b"", b"ERR boom", b"\xff\x00", b"x", b"\xe2\x82\xac"];
-    match rng.below(if depth == 0 { 8 } else { 10 }) {
+    match rng.below(if depth == 0 { 9 } else { 12 }) {
+        8 => LuaV::Other,
         0 => LuaV::Nil,
         1 => LuaV::Bool(rng.chance(1, 2)),
         2 => LuaV::Int(*rng.pick(&[0i64, 1, -1, 42, i64::MAX, i64::MIN])),
@@ -1080,7 +1161,7 @@ fn rand_lua(rng: &mut Rng, depth: u32) -> LuaV {
 /// what Redis documents for Lua -> RESP2 (used by the oracle, independent of the model)
 fn redis_lua_to_resp(v: &LuaV) -> Option<RespValue> {
     Some(match v {
-        LuaV::Nil | LuaV::Bool(false) => RespValue::BulkString(None),
+        LuaV::Nil | LuaV::Bool(false) | LuaV::Other => RespValue::BulkString(None),
         LuaV::Bool(true) => RespValue::Integer(1),
         LuaV::Int(i) | LuaV::Num(i) => RespValue::Integer(*i),
         LuaV::Str(b) => RespValue::BulkString(Some(b.clone())),
@@ -1132,8 +1213,25 @@ fn luaconv(cx: &mut Ctx, rng: &mut Rng, n: u64) {
         run(cx, &v, "corpus");
     }
     for _ in 0..n {
-        let v = rand_lua(rng, 2);
+        let depth = 2 + rng.below(3) as u32;
+        let v = rand_lua(rng, depth);
         run(cx, &v, "random");
+    }
+    // nesting depth 6, every type at the bottom
+    let mut deep = LuaV::Arr(vec![LuaV::Int(1), LuaV::Str(b"\xff".to_vec()), LuaV::Bool(true), LuaV::Bool(false), LuaV::Num(2), LuaV::OkT(b"OK".to_vec()), LuaV::ErrT(b"E".to_vec()), LuaV::Other, LuaV::Nil, LuaV::Int(9)]);
+    for _ in 0..6 { deep = LuaV::Arr(vec![LuaV::Int(0), deep, LuaV::Str(b"t".to_vec())]); }
+    run(cx, &deep, "corpus");
+    run(cx, &LuaV::Other, "corpus");
+    run(cx, &LuaV::Arr(vec![LuaV::Other, LuaV::Int(1)]), "corpus");
+    // table shapes outside the model's value class: observed, no oracle
+    {
+        let mut obs = Vec::new();
+        for lit in ["{err=5}", "{ok=true}", "{err='x', 1, 2}", "{ok='a', err='b'}", "{1, 2, nil, 4}", "{[1]=1, [3]=3}", "{1.5, 2.5}", "setmetatable({}, {__index=function() return 1 end})"] {
+            let mut ex = CommandExecutor::new();
+            let got = eval(&mut ex, &format!("return {}", lit), &vec![]).unwrap_or(RespValue::err("crash"));
+            obs.push(json!({"script": format!("return {}", lit), "reply": show_resp(&got)}));
+        }
+        cx.out.extra.insert("lua_table_shapes_observed".into(), json!(obs));
     }
     // non-integral float: outside the model's value class, oracle only
     {
@@ -1240,9 +1338,24 @@ fn arm_literals(path: &str) -> BTreeMap<String, BTreeSet<String>> {
     m
 }
 
+/// the source tree this binary was BUILT against (the `redis-sim` path dependency of harness/Cargo.toml),
+/// not a hard-coded /repo
+fn repo_dir() -> String {
+    const MANIFEST: &str = include_str!("../Cargo.toml");
+    for line in MANIFEST.lines() {
+        if line.trim_start().starts_with("redis-sim") {
+            if let Some(i) = line.find("path = \"") {
+                let rest = &line[i + 8..];
+                if let Some(j) = rest.find('"') { return rest[..j].to_string(); }
+            }
+        }
+    }
+    "/repo".to_string()
+}
+
 fn source_diff(cx: &mut Ctx) {
-    let a = arm_literals("/repo/src/redis/parser.rs");
-    let b = arm_literals("/repo/src/redis/commands.rs");
+    let a = arm_literals(&format!("{}/src/redis/parser.rs", repo_dir()));
+    let b = arm_literals(&format!("{}/src/redis/commands.rs", repo_dir()));
     let mut diffs = Vec::new();
     let names: BTreeSet<&String> = a.keys().chain(b.keys()).collect();
     for n in names {
@@ -1326,7 +1439,8 @@ fn effect_sweep(cx: &mut Ctx) {
         "ZREM $K a", "ZREM $K a b c", "ZREM $K a m", "ZRANGE $K 0 -1", "ZSCORE $K a", "ZCARD $K", "ZCOUNT $K 0 10", "ZCOUNT $K (1 +inf",
         "ZRANGEBYSCORE $K 0 10", "ZRANGEBYSCORE $K -inf +inf WITHSCORES", "ZRANGEBYSCORE $K 0 10 LIMIT 1 1", "ZRANGEBYSCORE $K 0 10 WITHSCORES LIMIT 0 5",
     ];
-    const ALL: &[&str] = &["s", "t", "n", "c", "l", "l2", "st", "st2", "h", "h2", "z", "z2", "missing"];
+    const ALL: &[&str] = &["s", "t", "n", "c", "l", "l2", "st", "st2", "h", "h2", "z", "z2", "missing", "x"];
+    cx.call_path = true;
     for tmpl in TEMPLATES {
         for k in ALL {
             let js: &[&str] = if tmpl.contains("$J") { &["l", "l2", "s", "t", "missing2", "z"] } else { &[""] };
@@ -1336,6 +1450,400 @@ fn effect_sweep(cx: &mut Ctx) {
             }
         }
     }
+    // byte-exactness of EVERY argument position of every translator arm (also the variadic tails: second
+    // member, second field/value pair, second key …): non-UTF-8, empty, and lengths around the SDS
+    // small-string limit (23 bytes inline, 24 on the heap)
+    let variants: [Vec<u8>; 6] = [b"\xff\x00\xfe".to_vec(), b"".to_vec(), b"\xc3\x28".to_vec(), vec![b'q'; 23], vec![b'q'; 24], b"\xe2\x82".to_vec()];
+    for tmpl in TEMPLATES {
+        let words: Vec<&str> = tmpl.split(' ').collect();
+        for pos in 1..words.len() {
+            for (vi, v) in variants.iter().enumerate() {
+                for k in ["s", "l", "st", "h", "z", "missing"] {
+                    let mut f: Frame = words.iter().map(|w| match *w { "$K" => k.as_bytes().to_vec(), "$J" => b"l2".to_vec(), x => x.as_bytes().to_vec() }).collect();
+                    f[pos] = v.clone();
+                    cx.check_frame(&f, if vi < 3 || vi == 5 { "effect-sweep:bytes" } else { "effect-sweep:sso-boundary" });
+                }
+            }
+        }
+    }
+    // large arguments (1 MiB): oracle only (the three real paths and the twins), not sent to the model driver
+    cx.with_model = false;
+    let big: Vec<u8> = (0..(1usize << 20)).map(|i| (i * 31 % 251) as u8).collect();
+    for tmpl in ["SET missing $B", "LPUSH missing a $B", "SADD missing a $B", "HSET missing f 1 g $B", "ZADD missing 1 a 2 $B", "SET $B v"] {
+        let f: Frame = tmpl.split(' ').map(|w| if w == "$B" { big.clone() } else { w.as_bytes().to_vec() }).collect();
+        cx.check_frame(&f, "effect-sweep:1MiB");
+    }
+    // many arguments
+    for (name, per) in [("DEL", 1usize), ("SADD", 1), ("HSET", 2), ("ZADD", 2), ("LPUSH", 1)] {
+        let mut f: Frame = vec![name.as_bytes().to_vec()];
+        if name != "DEL" { f.push(b"missing".to_vec()); }
+        for i in 0..300 {
+            if per == 2 && name == "ZADD" { f.push(i.to_string().into_bytes()); } else if per == 2 { f.push(format!("f{}", i).into_bytes()); }
+            f.push(format!("m{}", i).into_bytes());
+        }
+        cx.check_frame(&f, "effect-sweep:300-args");
+    }
+    cx.with_model = true;
+    cx.call_path = false;
+}
+
+
+// ---------------------------------------------------------------------------------------------
+// enumeration DERIVED FROM THE SOURCE the binary was built against: every command name / sub-command /
+// option keyword that appears as a match arm (or in a string comparison) of the three grammars
+// ---------------------------------------------------------------------------------------------
+
+#[derive(Default, Debug)]
+struct SourceGrammar {
+    names: BTreeSet<String>,
+    kws: BTreeMap<String, BTreeSet<String>>, // command name -> words matched inside its arm
+}
+
+fn quoted_words(t: &str) -> Vec<String> {
+    // "A" | "B" => …   → [A, B]
+    let head = t.split("=>").next().unwrap_or("");
+    head.split('|').filter_map(|w| { let w = w.trim(); w.strip_prefix('"').and_then(|x| x.strip_suffix('"')).map(|x| x.to_string()) }).collect()
+}
+
+fn is_word(w: &str) -> bool {
+    !w.is_empty() && w.bytes().all(|c| c.is_ascii_uppercase() || c.is_ascii_digit() || c == b'-')
+}
+
+fn scan_source(path: &str, start: Option<&str>, end: Option<&str>, arm_indent: usize) -> SourceGrammar {
+    let mut g = SourceGrammar::default();
+    let src = match std::fs::read_to_string(path) { Ok(s) => s, Err(_) => return g };
+    let mut on = start.is_none();
+    let mut cur: Vec<String> = Vec::new();
+    for line in src.lines() {
+        if let Some(st) = start { if line.contains(st) { on = true; continue; } }
+        if let Some(en) = end { if on && line.contains(en) { break; } }
+        if !on { continue; }
+        let ind = line.len() - line.trim_start().len();
+        let t = line.trim();
+        if ind == arm_indent && t.starts_with('"') && t.contains("=>") {
+            cur = quoted_words(t).into_iter().filter(|w| is_word(w)).collect();
+            for n in &cur { g.names.insert(n.clone()); g.kws.entry(n.clone()).or_default(); }
+            continue;
+        }
+        if ind <= arm_indent && t.starts_with("_ =>") { cur.clear(); continue; }
+        if cur.is_empty() || ind <= arm_indent { continue; }
+        let mut found: Vec<String> = Vec::new();
+        if t.starts_with('"') && t.contains("=>") { found.extend(quoted_words(t)); }
+        for op in ["== \"", "!= \""] {
+            let mut rest = t;
+            while let Some(i) = rest.find(op) {
+                let after = &rest[i + op.len()..];
+                if let Some(j) = after.find('"') { found.push(after[..j].to_string()); rest = &after[j + 1..]; } else { break; }
+            }
+        }
+        for w in found.into_iter().filter(|w| is_word(w)) {
+            for n in &cur { g.kws.entry(n.clone()).or_default().insert(w.clone()); }
+        }
+    }
+    g
+}
+
+fn shape_of(name: &str) -> Option<&'static Shape> {
+    SHAPES.iter().find(|s| s.name == name)
+}
+
+fn source_enumeration(cx: &mut Ctx) {
+    let dir = repo_dir();
+    let sim = scan_source(&format!("{}/src/redis/parser.rs", dir), None, Some("fn extract_string"), 20);
+    let zc = scan_source(&format!("{}/src/redis/commands.rs", dir), None, Some("fn extract_string_zc"), 20);
+    let lua = scan_source(&format!("{}/src/redis/executor/script_ops.rs", dir), Some("fn parse_lua_command_bytes"), Some("fn lua_to_resp"), 12);
+    if sim.names.len() < 60 || zc.names.len() < 60 || lua.names.len() < 20 {
+        cx.out.violation("C16:coverage:source-scan-failed", "the match arms of the three grammars could not be enumerated from the source (layout changed?): the coverage of command names is no longer derived from the source",
+            json!({"repo": dir, "from_resp_arms": sim.names.len(), "zero_copy_arms": zc.names.len(), "translator_arms": lua.names.len()}));
+    }
+    // (a) the two RESP parsers list the same names and the same words per name
+    for n in sim.names.symmetric_difference(&zc.names) {
+        cx.out.violation(&format!("C16:source:command-name-in-one-parser-only:{}", n), "a command name is a match arm of one RESP parser and not of the other",
+            json!({"name": n, "in_from_resp": sim.names.contains(n), "in_from_resp_zero_copy": zc.names.contains(n)}));
+    }
+    for n in sim.names.intersection(&zc.names) {
+        let (a, b) = (&sim.kws[n], &zc.kws[n]);
+        for w in a.symmetric_difference(b) {
+            cx.out.violation(&format!("C16:source:keyword-in-one-parser-only:{}:{}", n, w), "a sub-command / option word is matched by one RESP parser and not by the other",
+                json!({"command": n, "word": w, "in_from_resp": a.contains(w), "in_from_resp_zero_copy": b.contains(w)}));
+        }
+    }
+    // (b) everything the source lists is driven by the generators
+    let all: BTreeSet<&String> = sim.names.iter().chain(zc.names.iter()).chain(lua.names.iter()).collect();
+    for n in &all {
+        match shape_of(n) {
+            None => cx.out.violation(&format!("C16:coverage:command-not-driven:{}", n), "a command name of the source has no generator shape: no frame with this name is sent through the three paths", json!({"name": n})),
+            Some(sh) => {
+                let words: BTreeSet<&String> = [&sim, &zc, &lua].iter().filter_map(|g| g.kws.get(*n)).flatten().collect();
+                for w in words {
+                    if !sh.kws.contains(&w.as_str()) {
+                        cx.out.violation(&format!("C16:coverage:keyword-not-driven:{}:{}", n, w), "a sub-command / option word of the source is not in the generator's keyword list for the command", json!({"command": n, "word": w}));
+                    }
+                }
+            }
+        }
+    }
+    // (c) the translator's arms are the rows of the model-synchronised table
+    let tbl: BTreeSet<String> = LUA_TABLE.iter().map(|r| r.0.to_string()).collect();
+    for n in tbl.symmetric_difference(&lua.names) {
+        cx.out.violation(&format!("C16:source:translator-arm-changed:{}", n), "the match arms of parse_lua_command_bytes are not the rows of the model's translator table", json!({"name": n, "in_source": lua.names.contains(n), "in_model_table": tbl.contains(n)}));
+    }
+    // (d) the model's command table lists exactly the names of from_resp (compared by the driver)
+    let mut names: Vec<&String> = sim.names.iter().collect();
+    names.sort();
+    cx.out.op("TN".to_string(), names.iter().map(|n| n.as_str()).collect::<Vec<_>>().join(","));
+    let only_resp: Vec<&String> = sim.names.iter().filter(|n| !lua.names.contains(*n)).collect();
+    cx.out.extra.insert("source_enumeration".into(), json!({
+        "repo": dir, "from_resp_names": sim.names.len(), "zero_copy_names": zc.names.len(), "translator_names": lua.names.len(),
+        "names_without_translator_arm": only_resp,
+        "keywords_per_command": sim.kws.iter().filter(|(_, v)| !v.is_empty()).map(|(k, v)| (k.clone(), v.iter().cloned().collect::<Vec<_>>())).collect::<BTreeMap<_, _>>(),
+    }));
+}
+
+/// the word with one ASCII letter group replaced by a non-ASCII character that upper-cases to it
+fn special_variants(w: &str) -> Vec<Vec<u8>> {
+    let up = w.to_ascii_uppercase();
+    let mut v = Vec::new();
+    for (pat, rep) in [("SS", "\u{df}"), ("ST", "\u{fb06}"), ("FI", "\u{fb01}"), ("FL", "\u{fb02}"), ("FF", "\u{fb00}"), ("S", "\u{17f}"), ("I", "\u{131}"), ("J", "\u{1f0}"), ("H", "\u{1e96}"), ("T", "\u{1e97}"), ("W", "\u{1e98}"), ("Y", "\u{1e99}")] {
+        if up.contains(pat) {
+            let x = up.replacen(pat, rep, 1);
+            // ǰ ẖ ẗ ẘ ẙ upper-case to the letter PLUS a combining mark: not the keyword — a negative case
+            v.push(x.clone().into_bytes());
+            v.push(x.to_ascii_lowercase().into_bytes());
+        }
+    }
+    v
+}
+
+fn unicode_keyword_sweep(cx: &mut Ctx, rng: &mut Rng) {
+    for sh in SHAPES {
+        // command name
+        for nv in special_variants(sh.name) {
+            let mut f = base_frame(rng, sh, 0);
+            f[0] = nv;
+            cx.check_frame(&f, "unicode:name");
+        }
+        // every keyword, in every position
+        for kw in sh.kws {
+            for kv in special_variants(kw) {
+                let base = base_frame(rng, sh, 0);
+                for pos in 1..=base.len() {
+                    for with_val in [false, true] {
+                        let mut f = base.clone();
+                        f.insert(pos, kv.clone());
+                        if with_val { f.insert(pos + 1, b"5".to_vec()); }
+                        cx.check_frame(&f, "unicode:keyword");
+                    }
+                }
+            }
+        }
+    }
+    // cased non-ASCII letters (é → É, ω → Ω, ǆ → Ǆ …): outside the model's alphabet, the three real
+    // paths are compared with each other
+    cx.with_model = false;
+    for sh in SHAPES {
+        for (from, to) in [("E", "\u{e9}"), ("E", "\u{c9}"), ("O", "\u{3c9}"), ("A", "\u{e5}"), ("D", "\u{1c6}"), ("N", "\u{f1}"), ("U", "\u{fc}")] {
+            if sh.name.contains(from) {
+                let mut f = base_frame(rng, sh, 0);
+                f[0] = sh.name.replacen(from, to, 1).into_bytes();
+                cx.check_frame(&f, "unicode:cased-non-ascii:name");
+                f[0] = sh.name.to_lowercase().replacen(&from.to_lowercase(), to, 1).into_bytes();
+                cx.check_frame(&f, "unicode:cased-non-ascii:name");
+            }
+            for kw in sh.kws {
+                if kw.contains(from) {
+                    let mut f = base_frame(rng, sh, 0);
+                    f.push(kw.replacen(from, to, 1).into_bytes());
+                    f.push(b"5".to_vec());
+                    cx.check_frame(&f, "unicode:cased-non-ascii:keyword");
+                }
+            }
+        }
+        // and as plain arguments in every slot (keys are lossy Strings, values are bytes: no case mapping at all)
+        for i in 0..sh.tmpl.len() {
+            let mut f = base_frame(rng, sh, 1);
+            f[i + 1] = "\u{e9}\u{df}\u{3c9}".as_bytes().to_vec();
+            cx.check_frame(&f, "unicode:cased-non-ascii:argument");
+        }
+    }
+    cx.with_model = true;
+}
+
+// ---------------------------------------------------------------------------------------------
+// Lua-side argument kinds of redis.call (parse_multivalue_to_bytes): strings, integers, floats;
+// booleans / nil / tables are refused
+// ---------------------------------------------------------------------------------------------
+
+fn lua_args(cx: &mut Ctx) {
+    let cases: Vec<(LuaV, &str)> = vec![
+        (LuaV::Str(b"plain".to_vec()), "model"), (LuaV::Str(b"\xff\x00".to_vec()), "model"), (LuaV::Str(vec![]), "model"),
+        (LuaV::Int(0), "model"), (LuaV::Int(-1), "model"), (LuaV::Int(42), "model"), (LuaV::Int(i64::MAX), "model"), (LuaV::Int(i64::MIN), "model"),
+        (LuaV::Num(3), "model"), (LuaV::Num(-7), "model"), (LuaV::Num(0), "model"), (LuaV::Num(1 << 40), "model"), (LuaV::Num(9007199254740991), "model"),
+        (LuaV::Bool(true), "model"), (LuaV::Bool(false), "model"), (LuaV::Nil, "model"), (LuaV::Arr(vec![LuaV::Int(1)]), "model"),
+    ];
+    for (v, _) in cases {
+        // a trailing nil would simply shorten the argument list: put the value in the middle
+        let script = format!("return redis.pcall('SET', 'argk', {}, 'GET')", v.literal());
+        let mut ex = CommandExecutor::new();
+        let r = eval(&mut ex, &script, &vec![]);
+        let stored = ex.execute(&Command::Get("argk".into()));
+        let line = match (&r, &stored) {
+            (Ok(RespValue::Error(t)), _) if t.contains("Invalid argument type") => "refused".to_string(),
+            (Ok(RespValue::Error(t)), _) => format!("ERR {}", hex(t.as_bytes())),
+            (Ok(_), RespValue::BulkString(Some(b))) => format!("${}", hex(b)),
+            (Ok(o), _) => format!("? {}", show_resp(o)),
+            (Err(()), _) => "crash".to_string(),
+        };
+        cx.out.op(format!("LA {}", v.show()), line);
+        cx.out.count("lua-arg-kind");
+        cx.out.case(&format!("LA {}", v.show()), true);
+    }
+    // integers given as Lua numbers reach the command unchanged: same effect as the digits sent by a client
+    let mut a = primed();
+    let mut b = primed();
+    let ra = a.execute(&Command::IncrBy("s".into(), 9223372036854775797));
+    let rb = eval(&mut b, "return redis.pcall('INCRBY', 's', math.maxinteger - 10)", &vec![]).unwrap_or(RespValue::err("crash"));
+    if show_resp(&ra) != show_resp(&rb) || dump(&mut a) != dump(&mut b) {
+        cx.out.violation("C16:lua:integer-argument", "an integer passed to redis.call as a Lua number has another effect than its digits sent by a client",
+            json!({"script": "return redis.pcall('INCRBY', 's', math.maxinteger - 10)", "direct": show_resp(&ra), "lua": show_resp(&rb)}));
+    }
+    // observations outside the model's value class (no oracle): non-integral and huge floats
+    let mut obs = Vec::new();
+    for lit in ["1.5", "1e20", "-0.0", "1/0", "0/0", "2^53", "0.1"] {
+        let mut ex = CommandExecutor::new();
+        let _ = eval(&mut ex, &format!("return redis.pcall('SET', 'argk', {})", lit), &vec![]);
+        obs.push(json!({"lua_number": lit, "stored": show_resp(&ex.execute(&Command::Get("argk".into())))}));
+    }
+    cx.out.extra.insert("lua_float_arguments_observed".into(), json!(obs));
+}
+
+// ---------------------------------------------------------------------------------------------
+// EVAL / EVALSHA plumbing: numkeys against the argument count, binary KEYS / ARGV, the script cache
+// (EVAL caches, SCRIPT LOAD / FLUSH, shared cache), scripts inside MULTI
+// ---------------------------------------------------------------------------------------------
+
+fn exec_frame(ex: &mut CommandExecutor, f: &Frame, zero_copy: bool) -> Option<RespValue> {
+    let p = if zero_copy { parse_zc(f) } else { parse_sim(f) };
+    match p {
+        Parsed::Ok(c, _) => quiet_panics(|| ex.execute(&c)).ok(),
+        _ => None,
+    }
+}
+
+fn eval_plumbing(cx: &mut Ctx) {
+    const SCRIPT: &[u8] = b"return {KEYS[1] or 'nokey', ARGV[1] or 'noarg', #KEYS, #ARGV, redis.call('SET', KEYS[1] or 'dflt', ARGV[1] or 'v')}";
+    let extra: [&[u8]; 3] = [b"k\xff\x00", b"a\xfe\x00\r\n", b"third"];
+    for numkeys in ["0", "1", "2", "3", "4", "-0", "+1", "007", "1.0", "", "18446744073709551615", "9223372036854775807", "-1"] {
+        for zero_copy in [false, true] {
+            let mut f: Frame = vec![b"EVAL".to_vec(), SCRIPT.to_vec(), numkeys.as_bytes().to_vec()];
+            f.extend(extra.iter().map(|x| x.to_vec()));
+            if !zero_copy { cx.check_frame(&f, "eval:numkeys"); }
+            let parsed = if zero_copy { parse_zc(&f) } else { parse_sim(&f) };
+            if let Parsed::Ok(Command::Eval { keys, args, .. }, _) = &parsed {
+                let mut ex = primed();
+                let got = exec_frame(&mut ex, &f, zero_copy);
+                // what the parsed command must make the script see (keys are Strings: lossy by construction)
+                let k1 = keys.first().map(|k| k.as_bytes().to_vec()).unwrap_or(b"nokey".to_vec());
+                let a1 = args.first().map(|a| a.as_bytes().to_vec()).unwrap_or(b"noarg".to_vec());
+                let want = RespValue::Array(Some(vec![RespValue::BulkString(Some(k1.clone())), RespValue::BulkString(Some(a1.clone())),
+                    RespValue::Integer(keys.len() as i64), RespValue::Integer(args.len() as i64), RespValue::SimpleString("OK".into())]));
+                let n: usize = String::from_utf8_lossy(numkeys.as_bytes()).parse::<isize>().unwrap_or(0) as usize;
+                let split_ok = keys.len() == n && keys.len() + args.len() == extra.len() && (0..args.len()).all(|i| args[i].as_bytes() == extra[n + i]);
+                cx.out.count("eval-plumbing");
+                if got.as_ref().map(show_resp) != Some(show_resp(&want)) || !split_ok {
+                    cx.out.violation("C16:eval:keys-argv-plumbing", "EVAL does not hand the script the KEYS / ARGV the frame carries (numkeys keys, the rest byte-exact arguments)",
+                        json!({"numkeys": numkeys, "zero_copy": zero_copy, "reply": got.as_ref().map(show_resp), "expected": show_resp(&want)}));
+                }
+                // the value really stored is ARGV[1], byte-exact
+                let stored = ex.execute(&Command::Get(keys.first().cloned().unwrap_or("dflt".to_string())));
+                let a_stored = args.first().map(|a| a.as_bytes().to_vec()).unwrap_or(b"v".to_vec());
+                if show_resp(&stored) != show_resp(&RespValue::BulkString(Some(a_stored))) {
+                    cx.out.violation("C16:eval:argv-not-byte-exact", "a binary ARGV element written by the script is not stored byte-exactly", json!({"numkeys": numkeys, "stored": show_resp(&stored)}));
+                }
+            }
+        }
+    }
+    // script cache: EVAL caches; EVALSHA = EVAL; SCRIPT LOAD / EXISTS / FLUSH; shared cache
+    let body = "return {redis.call('INCRBY', KEYS[1], ARGV[1]), ARGV[2]}";
+    let sha = redis_sim::redis::ScriptCache::compute_sha1(body);
+    let fr_ = |parts: &[&[u8]]| -> Frame { parts.iter().map(|p| p.to_vec()).collect() };
+    let evalsha = fr_(&[b"EVALSHA", sha.as_bytes(), b"1", b"c", b"5", b"\xff\x00"]);
+    let evalf = fr_(&[b"EVAL", body.as_bytes(), b"1", b"c", b"5", b"\xff\x00"]);
+    cx.check_frame(&evalsha, "eval:evalsha");
+    let mut a = primed();
+    let mut b = primed();
+    let r0 = exec_frame(&mut a, &evalsha, false);
+    let r1 = exec_frame(&mut a, &fr_(&[b"SCRIPT", b"LOAD", body.as_bytes()]), false);
+    let r2 = exec_frame(&mut a, &evalsha, true);
+    let r3 = exec_frame(&mut b, &evalf, false);
+    let (da, db) = (dump(&mut a), dump(&mut b));
+    let r4 = exec_frame(&mut b, &evalsha, false); // cached by the EVAL
+    let r5 = exec_frame(&mut b, &fr_(&[b"SCRIPT", b"FLUSH"]), true);
+    let r6 = exec_frame(&mut b, &evalsha, false);
+    let r7 = exec_frame(&mut b, &fr_(&[b"SCRIPT", b"EXISTS", sha.as_bytes(), b"ffff"]), false);
+    let sh = |r: &Option<RespValue>| r.as_ref().map(show_resp).unwrap_or("none".into());
+    let want = "*2 :46 $xff00";
+    let problems: Vec<String> = [
+        (sh(&r0).starts_with("-") && sh(&r0).contains(&hex(b"NOSCRIPT")[1..]), "EVALSHA of an unknown script is not NOSCRIPT"),
+        (sh(&r1) == format!("${}", hex(sha.as_bytes())), "SCRIPT LOAD does not answer the SHA1"),
+        (sh(&r2) == want, "EVALSHA after SCRIPT LOAD differs from the expected reply"),
+        (sh(&r3) == want, "EVAL differs from the expected reply"),
+        (da == db, "EVALSHA and EVAL of the same script leave different keyspaces"),
+        (sh(&r4) == "*2 :51 $xff00", "EVALSHA after EVAL (cached) differs"),
+        (sh(&r5) == format!("+{}", hex(b"OK")), "SCRIPT FLUSH"),
+        (sh(&r6).contains(&hex(b"NOSCRIPT")[1..]), "EVALSHA after SCRIPT FLUSH is not NOSCRIPT"),
+        (sh(&r7) == "*2 :0 :0", "SCRIPT EXISTS after FLUSH"),
+    ].iter().filter(|(ok, _)| !ok).map(|(_, m)| m.to_string()).collect();
+    cx.out.count("eval-script-cache-scenario");
+    if !problems.is_empty() {
+        cx.out.violation("C16:eval:script-cache", "EVALSHA / SCRIPT LOAD / FLUSH do not behave as EVAL of the same script", json!({"problems": problems, "replies": [sh(&r0), sh(&r1), sh(&r2), sh(&r3), sh(&r4), sh(&r5), sh(&r6), sh(&r7)]}));
+    }
+    // shared script cache (multi-shard mode): loaded through one executor, visible through the other
+    let shared = redis_sim::redis::lua::SharedScriptCache::default();
+    let mut s1 = CommandExecutor::with_shared_script_cache(shared.clone());
+    let mut s2 = CommandExecutor::with_shared_script_cache(shared);
+    let _ = exec_frame(&mut s1, &fr_(&[b"SCRIPT", b"LOAD", body.as_bytes()]), false);
+    let r = exec_frame(&mut s2, &fr_(&[b"EVALSHA", sha.as_bytes(), b"1", b"c", b"5", b"x"]), false);
+    if sh(&r) != "*2 :5 $x78" {
+        cx.out.violation("C16:eval:shared-script-cache", "a script loaded through one executor of a shared cache is not runnable through another", json!({"reply": sh(&r)}));
+    }
+    // a script queued inside MULTI runs at EXEC with the effect of the queued command
+    let mut m1 = primed();
+    let mut m2 = primed();
+    for f in [fr_(&[b"MULTI"]), fr_(&[b"EVAL", b"return redis.call('SET', KEYS[1], ARGV[1], 'EX', '7')", b"1", b"s", b"\xff"]), fr_(&[b"EXEC"])] { let _ = exec_frame(&mut m1, &f, false); }
+    for f in [fr_(&[b"MULTI"]), fr_(&[b"SET", b"s", b"\xff", b"EX", b"7"]), fr_(&[b"EXEC"])] { let _ = exec_frame(&mut m2, &f, true); }
+    let (d1, d2) = (dumps(&mut m1), dumps(&mut m2));
+    if d1 != d2 {
+        cx.out.violation("C16:eval:inside-multi", "a script queued in MULTI leaves another keyspace than the command it calls queued directly", json!({"script_dumps": d1, "direct_dumps": d2}));
+    }
+}
+
+
+/// the coverage audit of C16 against the eleven classes of missed inputs (also DESIGN §4 C16 "coverage audit")
+fn audit() -> serde_json::Value {
+    json!([
+      {"class": 1, "topic": "entry paths / command variants never driven",
+       "covered": "from_resp, from_resp_zero_copy, redis.pcall AND redis.call (third twin) for every frame; command names, sub-commands and option words are ENUMERATED FROM THE SOURCE the binary was built against (match arms of parser.rs / commands.rs / parse_lua_command_bytes) and checked against the generator shapes, the model's table (TN op) and the translator table (LT ops): a new arm breaks the check (C16:coverage:command-not-driven / keyword-not-driven / C16:source:*); non-bulk frame elements and non-array values (oracle); Lua-side argument kinds of redis.call (string / integer / float / boolean / nil / table: LA ops); EVAL and EVALSHA through both RESP parsers and the executor, SCRIPT LOAD / EXISTS / FLUSH, shared script cache, EVAL inside MULTI",
+       "open": "Command::BatchSet / BatchGet are internal (no parser arm); redis.error_reply / status_reply / sha1hex / redis.log are not implemented by the code (only call and pcall exist) — nothing to drive"},
+      {"class": 2, "topic": "input alphabet",
+       "covered": "every argument position of every translator arm incl. variadic tails (2nd member, 2nd field/value pair, 2nd key) with non-UTF-8, truncated UTF-8, empty, 23/24-byte (SDS inline limit) values; 1 MiB arguments and 300-argument frames (oracle only); keys with spaces, empty, non-UTF-8; every keyword and command name in upper / lower / mixed case and with each of the 17 non-ASCII characters whose upper case contains an ASCII letter, in every position; cased non-ASCII letters (é ω ǆ ñ ü å) in names, keywords and arguments on the three real paths (oracle only); multi-field HSET / HDEL, multi-member SADD / ZADD",
+       "open": "cased non-ASCII letters other than the 17 special ones are outside the Lean model (identity there): compared between the three real paths only"},
+      {"class": 3, "topic": "comparisons at equality",
+       "covered": "arity 0..max+2 for every name; SELECT 15/16; SETBIT bit 0/1/2/-1; SETRANGE offset -1/0; u32 / i64 / u64 / usize limits ±1; f64 largest finite / first overflow / smallest subnormal / halfway cases; EVAL numkeys below / equal / above the number of arguments and in non-canonical spellings; LIMIT with 0/1/2 following values",
+       "open": ""},
+      {"class": 4, "topic": "configuration", "covered": "none needed: the three grammars and the conversions read no configuration (checked: no config access in parser.rs, commands.rs, script_ops.rs parse / convert functions)", "open": ""},
+      {"class": 5, "topic": "capacity thresholds", "covered": "SDS inline limit 23/24; Vec::with_capacity paths with 300 pairs; 1 MiB values", "open": "Lua C-stack limit of table.unpack (≈ 1M results) is a property of the test script, not of the code"},
+      {"class": 6, "topic": "fault kinds", "covered": "panics of every path are caught and compared (catch_unwind)", "open": "no I/O in scope"},
+      {"class": 7, "topic": "history shapes",
+       "covered": "twins primed at t=1000 s with every type with and without TTL, plus a key whose deadline has passed but which was never evicted; keyspace compared right after and at +8 s / +60 s / +2000 s; EVALSHA before / after SCRIPT LOAD, after EVAL, after SCRIPT FLUSH; script queued in MULTI",
+       "open": "multi-command histories are C01 / C05's subject; C16 compares single commands on a primed state"},
+      {"class": 8, "topic": "node-global state outside the model", "covered": "script cache (local and shared) driven by the EVALSHA scenarios; a fresh Lua state per EVAL (globals cannot leak) is exercised by every EVAL", "open": "math.random seeding from the virtual clock (determinism is C20's subject)"},
+      {"class": 9, "topic": "observations",
+       "covered": "canonical field-by-field rendering of the parsed Command (both parsers); reply AND keyspace with remaining PTTL at four instants for direct / pcall / call; exact error texts; the exact shape of the error redis.call raises (found: mangled by mlua, C16:lua:call-error-text-mangled)",
+       "open": "the translator's Command itself is private (observed through its effect)"},
+      {"class": 10, "topic": "finding signatures", "covered": "every recorded signature fires only for inputs the model of the current code predicts (tables synced with Lean by LT ops; lua_error_alphabet, lua_unknown_iff_not_in_luaTable, lua_rejects_accepted_only_on)", "open": ""},
+      {"class": 11, "topic": "harness fragility", "covered": "the source files are read from the tree the binary was built against (path taken from harness/Cargo.toml at compile time, not a hard-coded /repo); a failed source scan is itself a violation (C16:coverage:source-scan-failed); duplicate frames are skipped, not fatal", "open": ""}
+    ])
 }
 
 fn fr(parts: &[&[u8]]) -> Frame {
@@ -1439,13 +1947,17 @@ fn systematic(cx: &mut Ctx, rng: &mut Rng) {
 pub fn run(a: &Args) {
     // the parsers' panics are part of what is observed: keep the default hook from flooding the log
     std::panic::set_hook(Box::new(|_| {}));
-    let mut cx = Ctx { out: Out::new(&a.out), lua_unknown: BTreeSet::new(), lua_errtext: BTreeSet::new(), parse_crash: BTreeSet::new(), seen: BTreeSet::new() };
+    let mut cx = Ctx { out: Out::new(&a.out), with_model: true, call_path: false, call_error_samples: Vec::new(), lua_unknown: BTreeSet::new(), lua_errtext: BTreeSet::new(), parse_crash: BTreeSet::new(), seen: BTreeSet::new() };
     let mut rng = Rng::new(a.seed);
     lua_table_sync(&mut cx);
     corpus(&mut cx);
     unicode_sweep(&mut cx);
     float_sweep(&mut cx, &mut rng, (a.n / 4).max(200));
     luaconv(&mut cx, &mut rng, (a.n / 10).max(100));
+    lua_args(&mut cx);
+    eval_plumbing(&mut cx);
+    source_enumeration(&mut cx);
+    unicode_keyword_sweep(&mut cx, &mut rng);
     effect_sweep(&mut cx);
     systematic(&mut cx, &mut rng);
     nonbulk(&mut cx, &mut rng);
@@ -1465,5 +1977,7 @@ pub fn run(a: &Args) {
     cx.out.extra.insert("commands_unknown_to_lua_translator".into(), json!(cx.lua_unknown));
     cx.out.extra.insert("commands_with_different_lua_error_text".into(), json!(cx.lua_errtext));
     cx.out.extra.insert("commands_with_parser_panic".into(), json!(cx.parse_crash));
+    cx.out.extra.insert("audit".into(), audit());
+    cx.out.extra.insert("redis_call_error_shape_samples".into(), json!(cx.call_error_samples));
     cx.out.finish("case = one command frame (array of bulk strings) sent through from_resp, from_resp_zero_copy and redis.pcall on primed twin executors; drawn from (i) a fixed corpus, (ii) every command name of the three grammars x 4 letter-case modes (incl. non-ASCII characters that upper-case to ASCII) x arity 0..max+2, every option keyword in every position, every numeric slot x boundary numerals, empty / non-UTF-8 bytes in every slot, (iii) random structured frames with mutations; plus Lua value literals for lua_to_resp and float literals; distinct by frame bytes; non-trivial iff the command name is known to from_resp");
 }
